@@ -153,8 +153,8 @@ func runServe(args []string) {
 				c.c.Close()
 			}
 			fmt.Fprintf(out, "%s => %d %d %s %s\n", line, t0, t1, hx(got), st)
-		case "P":
-			// P <id>:<hex> ... — the payloads are written at the same moment, one goroutine per connection (the generator keeps
+		case "PAR":
+			// PAR <id>:<hex> ... — the payloads are written at the same moment, one goroutine per connection (the generator keeps
 			// their key sets disjoint, so every serial order has the same replies); echoed, then reported as one C line each
 			type par struct {
 				id, hexp string
